@@ -120,16 +120,22 @@ fn determinism_selftest(seed: u64, count: u64) -> Result<(u64, usize, String), S
     Ok((count, procs, fold))
 }
 
-fn cov_json(st: &Stats) -> (J, usize, usize, usize, usize) {
+fn cov_json(st: &Stats) -> (J, usize, usize, usize, usize, usize, usize) {
     let mut rows = Vec::new();
     let (mut tot_reach, mut tot_obs, mut tot_can, mut tot_tr) = (0, 0, 0, 0);
+    let (mut core_hit, mut core_total) = (0, 0);
     for k in 0..N_KINDS {
         let c = &st.cov[k];
         tot_reach += c.reachable();
         tot_obs += c.n_observed();
         tot_can += c.n_cancelled();
         tot_tr += c.n_trans();
+        let (ch, ct) = c.core_transitions();
+        core_hit += ch;
+        core_total += ct;
         rows.push(J::obj(vec![
+            ("core_transitions_executed", J::i(ch as i64)),
+            ("core_transitions_total", J::i(ct as i64)),
             ("container", J::s(kind_name(k))),
             ("iterator_len", J::i(c.n as i64)),
             ("runs", J::i(st.kind_runs[k] as i64)),
@@ -140,7 +146,7 @@ fn cov_json(st: &Stats) -> (J, usize, usize, usize, usize) {
             ("distinct_state_op_transitions", J::i(c.n_trans() as i64)),
         ]));
     }
-    (J::Arr(rows), tot_reach, tot_obs, tot_can, tot_tr)
+    (J::Arr(rows), tot_reach, tot_obs, tot_can, tot_tr, core_hit, core_total)
 }
 
 /// The `check` command proper runs in a child process (`--inner`); this wrapper supervises it
@@ -317,7 +323,7 @@ fn cmd_check_inner(m: &HashMap<String, String>) -> i32 {
     // 6. evidence
     let wall = t0.elapsed().as_secs_f64();
     let st = &res.stats;
-    let (cov, reach, obs, can, tr) = cov_json(st);
+    let (cov, reach, obs, can, tr, core_hit, core_total) = cov_json(st);
     let samples: Vec<J> = (0..3u64)
         .map(|r| {
             let p = gen::gen_plan(seed, r);
@@ -355,7 +361,7 @@ fn cmd_check_inner(m: &HashMap<String, String>) -> i32 {
         ("std_adaptors_on_by_ref", J::Arr((0..N_ADAPT as usize).map(|i| J::obj(vec![("method", J::s(ADAPT_NAMES[i])), ("executed", J::i(st.adapt_counts[i] as i64))])).collect())),
         ("std_consumers_by_value", J::Arr((0..N_CONSUME as usize).map(|i| J::obj(vec![("method", J::s(CONSUME_NAMES[i])), ("executed", J::i(st.consume_counts[i] as i64))])).collect())),
         ("cursor_state_coverage", cov),
-        ("cursor_states_total", J::obj(vec![("reachable", J::i(reach as i64)), ("observed", J::i(obs as i64)), ("cancelled", J::i(can as i64)), ("distinct_state_op_transitions", J::i(tr as i64))])),
+        ("cursor_states_total", J::obj(vec![("reachable", J::i(reach as i64)), ("observed", J::i(obs as i64)), ("cancelled", J::i(can as i64)), ("distinct_state_op_transitions", J::i(tr as i64)), ("core_alphabet_transitions_executed", J::i(core_hit as i64)), ("core_alphabet_transitions_total", J::i(core_total as i64)), ("core_alphabet", J::s("(reachable cursor state) x {next, next_back, len|size_hint, observe, drop}: the property's own quantifier"))])),
         ("states", J::i(obs as i64)),
         ("transitions", J::i(tr as i64)),
         (
@@ -414,8 +420,8 @@ fn cmd_check_inner(m: &HashMap<String, String>) -> i32 {
         return EXIT_HARNESS;
     }
     println!(
-        "{} runs ({} non-trivial, {} distinct non-trivial), {} steps, {:.1}s; cursor states observed {}/{} cancelled {}/{}; faults fired: {:?}",
-        st.runs, st.runs_nontrivial, res.distinct_nontrivial, st.ops_exec, wall, obs, reach, can, reach, &st.fault_fired[..N_FAULTS]
+        "{} runs ({} non-trivial, {} distinct non-trivial), {} steps, {:.1}s; cursor states observed {}/{} cancelled {}/{}; core transitions {}/{}; faults fired: {:?}",
+        st.runs, st.runs_nontrivial, res.distinct_nontrivial, st.ops_exec, wall, obs, reach, can, reach, core_hit, core_total, &st.fault_fired[..N_FAULTS]
     );
     if exit == EXIT_OK {
         println!("C18 held on everything explored");
